@@ -38,7 +38,9 @@ func (d *dependencyFurtherMatchingPostProcessors) PostProcessProperties(properti
 				if prop.IsRequired() {
 					return nil, errors.WithMessagef(err, "field '%s' is required but not found any components", prop.String())
 				}
-				return nil, nil
+				//optional field without candidates: leave it untouched and go on with the remaining fields
+				prop.Injects = nil
+				continue
 			}
 			return nil, err
 		}
